@@ -4,6 +4,7 @@ import (
 	"bytes"
 	"context"
 	"fmt"
+	"runtime"
 	"testing"
 	"time"
 
@@ -23,13 +24,15 @@ import (
 // peer (DESIGN.md §3 C11). Fault enumeration on top of generated reference runs.
 
 type c11Fault struct {
-	Kind   string // none | silent | withhold | cancel | baddata | resubmit (sign: peer never starts; at Step the caller submits the same topic again, then another topic)
-	Peer   int    // silent: party id
-	K      int    // silent: number of outgoing frames after which the peer is cut off (0 = never starts)
-	J      int    // withhold: index of the withheld frame (counted from the start of the operation)
-	Step   int    // cancel: driver step at which the context is cancelled
-	Caller int    // cancel / baddata: party id
-	Data   int    // baddata: 0 empty, 1 truncated, 2 other scheme's, 3 bit flipped, 4 garbage
+	Kind   string // none | silent | withhold | cancel | baddata | resubmit (sign: peer never starts; at Step the caller submits the same topic again, then another topic) | cancel-at-send (the caller's context ends inside its own J-th Send call; Mute: nothing reaches the caller afterwards) | cancel-at-hook (the caller's context ends inside the backend factory / Init / SetShareData / entry of KeyGen or Sign of its protocol instance)
+	Point  string // cancel-at-hook: factory | init | setshare | run
+	Mute   bool
+	Peer   int // silent: party id
+	K      int // silent: number of outgoing frames after which the peer is cut off (0 = never starts)
+	J      int // withhold: index of the withheld frame (counted from the start of the operation)
+	Step   int // cancel: driver step at which the context is cancelled
+	Caller int // cancel / baddata: party id
+	Data   int // baddata: 0 empty, 1 truncated, 2 other scheme's, 3 bit flipped, 4 garbage
 }
 
 type c11Case struct {
@@ -99,6 +102,35 @@ func runC11(c c11Case) *vh.Outcome {
 		net := sim.NewNet()
 		tape := &backends.Tape{}
 		kgf, sf := c11Factories(c.Backend, all, c.T, tape)
+		// cancel-at-hook: the caller's context ends at a chosen point of the life of its protocol instance
+		var hookArmed bool
+		var hookFire func()
+		hook := func(point string) {
+			if hookArmed && point == c.Fault.Point && hookFire != nil {
+				hookArmed = false
+				hookFire()
+			}
+		}
+		if c.Fault.Kind == "cancel-at-hook" {
+			kgf0, sf0 := kgf, sf
+			wrap := func(node uint16, b interface{}) {
+				if int(node) != c.Fault.Caller {
+					return
+				}
+				hook("factory")
+				if r, ok := b.(*backends.Rec); ok {
+					r.Hook = hook
+				}
+			}
+			kgf = func(node uint16) tss.KeyGenFactory {
+				f := kgf0(node)
+				return func(id uint16) tss.KeyGenerator { b := f(id); wrap(node, b); return b }
+			}
+			sf = func(node uint16) tss.SignerFactory {
+				f := sf0(node)
+				return func(id uint16) tss.Signer { b := f(id); wrap(node, b); return b }
+			}
+		}
 		cl := stack.New(net, stack.Config{Membership: identityMembership(c.N), Silent: c.Silent, Threshold: c.N - 1, KGF: kgf, SF: sf})
 		defer cl.StopAll()
 		root, cancelRoot := context.WithCancel(context.Background())
@@ -170,6 +202,8 @@ func runC11(c c11Case) *vh.Outcome {
 		}
 
 		base := net.Sent()
+		var sendCancel func()
+		muteCaller := false
 		perPeer := map[uint16]int{}
 		count := 0
 		net.Interpose = func(f *sim.Frame) []*sim.Frame {
@@ -188,9 +222,29 @@ func runC11(c c11Case) *vh.Outcome {
 					return nil
 				}
 			}
+			if muteCaller && int(f.To) == c.Fault.Caller {
+				return nil
+			}
 			return []*sim.Frame{f}
 		}
 		_ = base
+		if c.Fault.Kind == "cancel-at-send" {
+			sent := 0
+			net.PreSend = func(from, to uint16, msgType uint8) {
+				if int(from) != c.Fault.Caller {
+					return
+				}
+				sent++
+				if sent-1 == c.Fault.J && sendCancel != nil {
+					info.FaultHit = true
+					sendCancel() // inside the caller's own Send call
+					sendCancel = nil
+					for i := 0; i < 4; i++ {
+						runtime.Gosched() // whoever watches that context gets to run before the sender carries on
+					}
+				}
+			}
+		}
 
 		ctxs := map[uint16]context.Context{}
 		cancels := map[uint16]context.CancelFunc{}
@@ -218,6 +272,22 @@ func runC11(c c11Case) *vh.Outcome {
 		}
 		cancelled := false
 		var cancelledAt time.Duration
+		if c.Fault.Kind == "cancel-at-send" || c.Fault.Kind == "cancel-at-hook" {
+			fire := func() {
+				cancelled = true
+				cancelledAt = d.Now()
+				cancels[uint16(c.Fault.Caller)]()
+				if c.Fault.Mute {
+					muteCaller = true
+				}
+			}
+			if c.Fault.Kind == "cancel-at-send" {
+				sendCancel = fire
+			} else {
+				hookFire = func() { info.FaultHit = true; fire() }
+				hookArmed = true
+			}
+		}
 		if c.Fault.Kind == "cancel" {
 			d.AfterStep = func() {
 				if !cancelled && d.Steps >= c.Fault.Step {
@@ -296,7 +366,7 @@ func runC11(c c11Case) *vh.Outcome {
 			if call.StartedAt > from {
 				from = call.StartedAt
 			}
-			if c.Fault.Kind == "cancel" && id == c.Fault.Caller && cancelled && call.ReturnedAt > from+c11Grace {
+			if (c.Fault.Kind == "cancel" || c.Fault.Kind == "cancel-at-send" || c.Fault.Kind == "cancel-at-hook") && id == c.Fault.Caller && cancelled && call.ReturnedAt > from+c11Grace {
 				fail = vh.Failf(fmt.Sprintf("C11/hang/%s/%s/cancel", c.Op, c.Backend), "%s on party %d returned %v after its context was cancelled", c.Op, id, call.ReturnedAt-from)
 				return
 			}
@@ -306,6 +376,34 @@ func runC11(c c11Case) *vh.Outcome {
 					fail = vh.Failf(fmt.Sprintf("C11/baddata-success/%s/%s", c.Op, c.Backend), "Sign on party %d succeeded with unusable stored share data (kind %d)", id, c.Fault.Data)
 					return
 				}
+			}
+		}
+		// after a cancellation inside a callback the node must still serve its caller: one more call (another topic /
+		// another key generation) by the same node, alone, has to come back by its own deadline
+		if c.Fault.Kind == "cancel-at-send" || c.Fault.Kind == "cancel-at-hook" {
+			muteCaller = false
+			ctx2, cancel2 := context.WithTimeout(root, 2*time.Second)
+			var next *sim.Call
+			if c.Op == "sign" {
+				next = cl.SignCall(ctx2, uint16(c.Fault.Caller), signInput, "topic-c11-followup")
+			} else {
+				next = cl.KeyGenCall(ctx2, uint16(c.Fault.Caller), c.N, c.T)
+			}
+			next.Name = "follow-up-call"
+			d2 := &sim.Driver{Net: net, Sched: &c.Sched, Pos: d.Pos, DrainAfterDone: false, HardStop: 2*time.Second + c11Grace, Calls: []*sim.Call{next}}
+			d2.Run()
+			cancel2()
+			if f := driverFailure("C11", d2); f != nil {
+				fail = f
+				return
+			}
+			if !next.IsDone() {
+				fail = vh.Failf(fmt.Sprintf("C11/hang/%s/%s/follow-up", c.Op, c.Backend), "after %s on party %d had its context cancelled (%+v), the next call on that node has not returned %v after its 2 s deadline", c.Op, c.Fault.Caller, c.Fault, c11Grace)
+				return
+			}
+			if next.Panic != "" {
+				fail = vh.Failf(fmt.Sprintf("C11/panic/%s/%s", c.Op, c.Backend), "follow-up call on party %d panicked (fault=%+v): %s", c.Fault.Caller, c.Fault, next.Panic)
+				return
 			}
 		}
 		// background goroutines get time to misbehave
@@ -478,6 +576,30 @@ func TestC11Enum(t *testing.T) {
 						return
 					}
 				}
+				for caller := 1; caller <= cf.n; caller++ {
+					for j := 0; j < ri.PerPeer[caller]; j++ {
+						for _, mute := range []bool{false, true} {
+							c := base
+							c.Fault = c11Fault{Kind: "cancel-at-send", Caller: caller, J: j, Mute: mute}
+							if !yield(c) {
+								complete = false
+								return
+							}
+						}
+					}
+					points := []string{"factory"}
+					if cf.backend == "rec" {
+						points = []string{"factory", "init", "setshare", "run"}
+					}
+					for _, pt := range points {
+						c := base
+						c.Fault = c11Fault{Kind: "cancel-at-hook", Caller: caller, Point: pt}
+						if !yield(c) {
+							complete = false
+							return
+						}
+					}
+				}
 				if cf.op == "sign" {
 					for s := 0; s <= 40; s += 8 {
 						c := base
@@ -521,7 +643,7 @@ func TestC11Rand(t *testing.T) {
 		c.Silent = rapid.Bool().Draw(t, "silent")
 		c.Op = rapid.SampledFrom([]string{"keygen", "sign"}).Draw(t, "op")
 		c.Sched = genSchedule(t, 400)
-		kinds := []string{"silent", "silent", "withhold", "withhold", "cancel"}
+		kinds := []string{"silent", "silent", "withhold", "withhold", "cancel", "cancel-at-send", "cancel-at-send", "cancel-at-hook"}
 		if c.Op == "sign" {
 			kinds = append(kinds, "baddata", "resubmit")
 		}
@@ -535,6 +657,13 @@ func TestC11Rand(t *testing.T) {
 		case "cancel":
 			c.Fault.Step = rapid.IntRange(0, 200).Draw(t, "step")
 			c.Fault.Caller = rapid.IntRange(1, c.N).Draw(t, "caller")
+		case "cancel-at-send":
+			c.Fault.Caller = rapid.IntRange(1, c.N).Draw(t, "caller")
+			c.Fault.J = rapid.IntRange(0, 40).Draw(t, "j")
+			c.Fault.Mute = rapid.Bool().Draw(t, "mute")
+		case "cancel-at-hook":
+			c.Fault.Caller = rapid.IntRange(1, c.N).Draw(t, "caller")
+			c.Fault.Point = rapid.SampledFrom([]string{"factory", "init", "setshare", "run"}).Draw(t, "point")
 		case "baddata":
 			c.Fault.Caller = rapid.IntRange(1, c.N).Draw(t, "caller")
 			c.Fault.Data = rapid.IntRange(0, 4).Draw(t, "data")
